@@ -49,6 +49,27 @@ impl InlineCache {
     }
   }
 
+  /// The number of property slots in this cache
+  pub fn property_len(&self) -> usize {
+    self.property.len()
+  }
+
+  /// The number of invoke slots in this cache
+  pub fn invoke_len(&self) -> usize {
+    self.invoke.len()
+  }
+
+  /// Grow this cache to hold at least the provided number of slots
+  /// keeping every existing entry
+  pub fn grow(&mut self, property_slots: usize, invoke_slots: usize) {
+    if property_slots > self.property.len() {
+      self.property.resize(property_slots, None);
+    }
+    if invoke_slots > self.invoke.len() {
+      self.invoke.resize(invoke_slots, None);
+    }
+  }
+
   /// Attempt to retrieve the property cache at a given slot
   /// for the provided class
   pub fn get_property_cache(&self, inline_slot: usize, class: ObjRef<Class>) -> Option<usize> {
@@ -150,6 +171,14 @@ pub struct CacheIdEmitter {
 }
 
 impl CacheIdEmitter {
+  /// Create an emitter that continues after slots that are already in use
+  pub fn continuing(property_slots: usize, invoke_slots: usize) -> Self {
+    Self {
+      property: IdEmitter::starting_at(property_slots),
+      invoke: IdEmitter::starting_at(invoke_slots),
+    }
+  }
+
   /// Emit a new property id
   pub fn emit_property(&mut self) -> u32 {
     if self.property_count() > u32::MAX as usize {
